@@ -11,9 +11,16 @@ import (
 	"verif/c10/lib"
 )
 
-var unitPool = []string{"", "", "km/h", "degC", "%", "V", "rpm"}
+var unitPool = []string{"", "", "km/h", "degC", "%", "V", "rpm", " ", " km/h ", "  x", "a b", "m "}
 var factorPool = []float64{1, 1, 1, 2, 0.5, 0.1, 0.25, 10, 0.001, 1.5}
 var offsetPool = []float64{0, 0, 0, -40, 100, 0.5, -273.15, 7}
+
+// boundary values for every numeric field (2^31, 2^32, 2^53, 2^63, 2^64, 1e19 and negatives)
+var boundaryFloats = []float64{2147483647, 2147483648, 4294967295, 4294967296, 9007199254740992, 9007199254740993,
+	9223372036854775807, 9223372036854775808, 18446744073709551615, 18446744073709551616, 1e19, 1e-9,
+	-2147483648, -2147483649, -9007199254740992, -9223372036854775808, -1e19}
+var boundaryInts = []int64{-9223372036854775807, -9007199254740992, -4294967296, -2147483649, -2147483648, -1, 0, 1,
+	2147483647, 2147483648, 4294967295, 4294967296, 9007199254740992, 9223372036854775807}
 
 func dbcOfPos(pos int, be bool) int {
 	if !be {
@@ -39,9 +46,11 @@ type lkid struct {
 }
 
 type gen struct {
-	r     *lib.Rng
-	d     *GDoc
-	names int
+	r        *lib.Rng
+	d        *GDoc
+	names    int
+	lastStd  *GSig // last standard signal generated in this document (twins differ from it in one field)
+	lastSize int
 }
 
 func (g *gen) name(prefix string) string {
@@ -64,7 +73,10 @@ func (g *gen) leaves(from, to, maxCount int) []*lnode {
 		}
 		rem := to - cur
 		size := 1 + g.r.Below(12)
-		switch g.r.Below(10) {
+		if g.lastSize > 0 && g.r.Chance(1, 3) {
+			size = g.lastSize // runs of equal size, so that signals differing in one field only occur
+		}
+		switch g.r.Below(12) {
 		case 0:
 			size = 1
 		case 1:
@@ -81,6 +93,7 @@ func (g *gen) leaves(from, to, maxCount int) []*lnode {
 			size = 64
 		}
 		res = append(res, &lnode{name: g.name("s"), pos: cur, size: size})
+		g.lastSize = size
 		cur += size
 	}
 	return res
@@ -303,6 +316,23 @@ func (g *gen) emitNode(m *GMsg, n *lnode, be bool, parent *lnode, groups []int, 
 			}
 			if ok {
 				vals = append([]GVal{}, vt.Vals...)
+				switch g.r.Below(6) {
+				case 0: // same names as the table, one number different
+					used := map[uint32]bool{}
+					for _, v := range vals {
+						used[v.ID] = true
+					}
+					for id := uint32(0); id < uint32(1)<<uint(n.size) && id < 64; id++ {
+						if !used[id] {
+							vals[g.r.Below(len(vals))].ID = id
+							g.tag("enum-table-same-names-other-number")
+							break
+						}
+					}
+				case 1: // same numbers as the table, one name different
+					vals[g.r.Below(len(vals))].Name = g.name("W")
+					g.tag("enum-table-same-numbers-other-name")
+				}
 				if g.r.Chance(1, 2) { // VAL_ lines need not be in index order
 					for i, j := 0, len(vals)-1; i < j; i, j = i+1, j-1 {
 						vals[i], vals[j] = vals[j], vals[i]
@@ -331,6 +361,27 @@ func (g *gen) emitNode(m *GMsg, n *lnode, be bool, parent *lnode, groups []int, 
 		} else {
 			s.Max = 1e15
 		}
+		if g.r.Chance(1, 6) { // boundary values
+			switch g.r.Below(4) {
+			case 0:
+				s.Max = boundaryFloats[g.r.Below(len(boundaryFloats))]
+			case 1:
+				s.Min = boundaryFloats[g.r.Below(len(boundaryFloats))]
+			case 2:
+				s.Offset = boundaryFloats[g.r.Below(len(boundaryFloats))]
+			default:
+				s.Factor = boundaryFloats[g.r.Below(len(boundaryFloats))]
+			}
+			g.tag("sig-boundary-number")
+		}
+		if n.size == 64 && g.r.Chance(1, 2) { // natural range of a 64-bit type
+			if s.Signed {
+				s.Factor, s.Offset, s.Min, s.Max = 1, 0, -9223372036854775808, 9223372036854775807
+			} else {
+				s.Factor, s.Offset, s.Min, s.Max = 1, 0, 0, 18446744073709551615
+			}
+			g.tag("sig-64bit-natural-range")
+		}
 		if n.size == 1 && !s.Signed {
 			if g.r.Chance(1, 2) {
 				s.Factor, s.Offset, s.Min, s.Max = 1, 0, 0, 1
@@ -339,6 +390,31 @@ func (g *gen) emitNode(m *GMsg, n *lnode, be bool, parent *lnode, groups []int, 
 				g.tag("sig-1bit-scaled")
 			}
 		}
+		// a twin of an earlier signal of the same size that differs in exactly one field
+		if l := g.lastStd; l != nil && int(l.Size) == n.size && g.r.Chance(1, 2) {
+			s.Signed, s.Factor, s.Offset, s.Min, s.Max, s.Unit = l.Signed, l.Factor, l.Offset, l.Min, l.Max, l.Unit
+			switch g.r.Below(6) {
+			case 0:
+				s.Signed = !s.Signed
+				g.tag("sig-twin-sign")
+			case 1:
+				s.Min = s.Min - 1
+				g.tag("sig-twin-min")
+			case 2:
+				s.Max = s.Max + 1
+				g.tag("sig-twin-max")
+			case 3:
+				s.Factor = s.Factor * 2
+				g.tag("sig-twin-factor")
+			case 4:
+				s.Offset = s.Offset + 3
+				g.tag("sig-twin-offset")
+			default:
+				s.Unit = s.Unit + "x"
+				g.tag("sig-twin-unit")
+			}
+		}
+		g.lastStd = s
 		g.tag("sig-standard")
 	}
 	if be {
@@ -468,6 +544,25 @@ func (g *gen) numFor(typ int, i int64, f float64) GNum {
 	return GNum{Form: 0, I: i}
 }
 
+// the BA_DEF_ value list of a send-type attribute: the library's order, or (as other tools write it)
+// permuted and with entries the library does not know
+func (g *gen) sendTypeList(lib []string) []string {
+	vals := append([]string{}, lib...)
+	switch g.r.Below(3) {
+	case 1:
+		for i := len(vals) - 1; i > 0; i-- {
+			j := g.r.Below(i + 1)
+			vals[i], vals[j] = vals[j], vals[i]
+		}
+		g.tag("wellknown-sendtype-list-permuted")
+	case 2:
+		k := 1 + g.r.Below(len(vals)-1)
+		vals = append(vals[:k], append([]string{"NotUsed", "Vendor specific"}, vals[k:]...)...)
+		g.tag("wellknown-sendtype-list-extended")
+	}
+	return vals
+}
+
 func (g *gen) attributes() {
 	r, d := g.r, g.d
 	type target struct {
@@ -499,9 +594,28 @@ func (g *gen) attributes() {
 				a.MinI = -int64(r.Below(50))
 			}
 			a.MaxI = a.MinI + int64(r.Below(1000))
-			dv := a.MinI + int64(r.Below(int(a.MaxI-a.MinI+1)))
-			def = GNum{Form: 0, I: dv}
-			mkval = func() GNum { return GNum{Form: 0, I: a.MinI + int64(r.Below(int(a.MaxI-a.MinI+1)))} }
+			pickI := func() int64 { return a.MinI + int64(r.Below(int(a.MaxI-a.MinI+1))) }
+			if r.Chance(1, 3) { // bounds and values at 2^31, 2^32, 2^53, 2^63-1 (and negatives for INT)
+				cands := []int64{}
+				for _, b := range boundaryInts {
+					if a.Type == 0 || (b >= 0 && b <= 4294967295) {
+						cands = append(cands, b)
+					}
+				}
+				i := r.Below(len(cands) - 1)
+				j := i + 1 + r.Below(len(cands)-i-1)
+				a.MinI, a.MaxI = cands[i], cands[j]
+				inside := []int64{}
+				for _, b := range cands {
+					if b >= a.MinI && b <= a.MaxI {
+						inside = append(inside, b)
+					}
+				}
+				pickI = func() int64 { return inside[r.Below(len(inside))] }
+				g.tag("attr-boundary-integers")
+			}
+			def = GNum{Form: 0, I: pickI()}
+			mkval = func() GNum { return GNum{Form: 0, I: pickI()} }
 		case 1:
 			a.MinF = float64(r.Below(10)) - 5
 			a.MaxF = a.MinF + float64(1+r.Below(100)) + 0.5
@@ -557,12 +671,17 @@ func (g *gen) attributes() {
 			}
 		}
 		if r.Chance(1, 2) {
-			vals := []string{"NoMsgSendType", "Cyclic", "CyclicIfActive", "CyclicAndTriggered", "CyclicIfActiveAndTriggered"}
+			vals := g.sendTypeList([]string{"NoMsgSendType", "Cyclic", "CyclicIfActive", "CyclicAndTriggered", "CyclicIfActiveAndTriggered"})
 			d.Attrs = append(d.Attrs, GAttr{Kind: 2, Type: 3, Name: "GenMsgSendType", Enum: vals})
 			d.AttrDefs = append(d.AttrDefs, GAttrDef{"GenMsgSendType", GNum{Form: 2, S: vals[0]}})
 			for _, t := range targets[2] {
 				if r.Chance(1, 2) {
-					d.AttrVals = append(d.AttrVals, GAttrVal{Kind: 2, Name: "GenMsgSendType", Msg: t.msg, V: GNum{Form: 0, I: int64(r.Below(len(vals)))}})
+					v := GNum{Form: 0, I: int64(r.Below(len(vals)))}
+					if r.Chance(1, 3) { // the value written as a string
+						v = GNum{Form: 2, S: vals[v.I]}
+						g.tag("wellknown-sendtype-as-string")
+					}
+					d.AttrVals = append(d.AttrVals, GAttrVal{Kind: 2, Name: "GenMsgSendType", Msg: t.msg, V: v})
 					g.tag("wellknown-msg-sendtype")
 				}
 			}
@@ -584,12 +703,17 @@ func (g *gen) attributes() {
 			}
 		}
 		if r.Chance(1, 2) {
-			vals := []string{"NoSigSendType", "Cyclic", "OnWrite", "OnWriteWithRepetition", "OnChange", "OnChangeWithRepetition", "IfActive", "IfActiveWithRepetition"}
+			vals := g.sendTypeList([]string{"NoSigSendType", "Cyclic", "OnWrite", "OnWriteWithRepetition", "OnChange", "OnChangeWithRepetition", "IfActive", "IfActiveWithRepetition"})
 			d.Attrs = append(d.Attrs, GAttr{Kind: 3, Type: 3, Name: "GenSigSendType", Enum: vals})
 			d.AttrDefs = append(d.AttrDefs, GAttrDef{"GenSigSendType", GNum{Form: 2, S: vals[0]}})
 			for _, t := range targets[3] {
 				if r.Chance(1, 3) {
-					d.AttrVals = append(d.AttrVals, GAttrVal{Kind: 3, Name: "GenSigSendType", Msg: t.msg, Sig: t.sig, V: GNum{Form: 0, I: int64(r.Below(len(vals)))}})
+					v := GNum{Form: 0, I: int64(r.Below(len(vals)))}
+					if r.Chance(1, 3) {
+						v = GNum{Form: 2, S: vals[v.I]}
+						g.tag("wellknown-sendtype-as-string")
+					}
+					d.AttrVals = append(d.AttrVals, GAttrVal{Kind: 3, Name: "GenSigSendType", Msg: t.msg, Sig: t.sig, V: v})
 					g.tag("wellknown-sig-sendtype")
 				}
 			}
